@@ -82,7 +82,9 @@ def main():
              "[Al+3]", "[O-]P(=O)([O-])[O-]", "[Ti+4]", "[N-3]", "[Ca+2].[Ca+2].[Ca+2].[O-]P(=O)([O-])[O-].[O-]P(=O)([O-])[O-]",
              "ClC(Cl)(Cl)Cl.ClCCl.[Ca+2].[Cl-].[Cl-]", "CCCCCCCCCCCCCCCCCCCCCCCCCCCCCCCCCCCCCCCC", "C" * 130,
              "OCC(O)C(O)C(O)C(O)C(O)C(O)C(O)C(O)C(O)C(O)CO", "[Na+].[Na+].[Na+].[Na+].[Na+].[O-]P(=O)([O-])OP(=O)([O-])OP(=O)([O-])[O-]",
-             "Clc1c(Cl)c(Cl)c(Cl)c(Cl)c1Cl", "CaCl", "[Ca]Cl", "[Co]C(=O)", "CO.[Co]", "[Cs]C", "CS.[Cs]", "[Sc]C.CS", "[Sn](C)(C)(C)C"]
+             "Clc1c(Cl)c(Cl)c(Cl)c(Cl)c1Cl", "CaCl", "[Ca]Cl", "[Co]C(=O)", "CO.[Co]", "[Cs]C", "CS.[Cs]", "[Sc]C.CS", "[Sn](C)(C)(C)C",
+             # ring-closure digits that span a dot: one molecule although the text has two pieces
+             "C1.C1", "C1.Cl1", "OC(=O)C1.N1", "c1ccccc1C2.C2", "C%11.O%11", "C1CC.O1.[Na+].[Cl-]", "C12.C1.C2", "[NH3+]C1.C1(=O)[O-]"]
     mols += extra
     outs = {}
     for s in mols:
@@ -108,7 +110,8 @@ def main():
            "[I-].[I-]>>II", "C[S-].C[S-]>>CSSC", "O=O>>[O-][O-]", "O=C1C=CC(=O)C=C1>>[O-]c1ccc([O-])cc1",
            "[Cu+].[Cl-].[Cl-]>>[Cu+2].[Cl-].[Cl-]", "[Fe+2]>>[Fe+3]", "[Fe+3]>>[Fe+2]", "CC(=O)O>>CC(=O)[O-]",
            "[O-]P(=O)([O-])[O-]>>OP(=O)(O)O", "[Na+].[Na+].[O-]C(=O)C([O-])=O>>[Na+].[O-]C(=O)C([O-])=O",
-           "C[N+](C)(C)C.C[N+](C)(C)C>>C[N+](C)(C)C.CN(C)C.[CH3+]", "[Cl-].[Cl-].[Cl-]>>[Cl-].[Cl-]", "[S-2]>>[S-]"]
+           "C[N+](C)(C)C.C[N+](C)(C)C>>C[N+](C)(C)C.CN(C)C.[CH3+]", "[Cl-].[Cl-].[Cl-]>>[Cl-].[Cl-]", "[S-2]>>[S-]",
+           "C1.Cl1.O>>CO.Cl", "OC(=O)C1.N1>>NCC(=O)O", "C1.C1>>CC", "CC(=O)OC.C1.C1>>CC(=O)O.CC"]
     cc_in = []
     for s in rx:
         l, r = s.split(">>")
